@@ -43,8 +43,9 @@ theorem int_neg_correct (a : W) :
 
 theorem int_pos_correct (a : W) : evalUn table "+" (I a) = .ok (I a) := rfl
 
-/-- reflected forms: `a.__rsub__(b)` is `b - a` (and likewise for the other reflected dunders, which all go
-    through the same `ReversingChecker` row kind) -/
+/-- reflected forms: `a.__rsub__(b)` is `b - a`.  Only `__rsub__` and `__radd__` are theorems; the other 32 reflected
+    rows are the same `ReversingChecker` row kind and are covered by the tie only (op name + swapped operand wiring of
+    every reflected row, and values of the mixed forms that dispatch through them), not by a theorem. -/
 theorem int_rsub_correct (a b : W) :
     ∃ r, evalMeth table "__rsub__" [I a, I b] = .ok (I r) ∧ r.toInt = wrapS (b.toInt - a.toInt) :=
   ⟨isub b a, rfl, isub_toInt b a⟩
@@ -293,6 +294,8 @@ theorem nat_truth_correct (a : W) :
   have : (BitVec.ofInt 64 0).toNat = 0 := by decide
   rw [this]; by_cases h : a.toNat = 0 <;> simp [h] <;> omega
 
+/-- `int(a)` on a nat is a no-op on the bits: the *value* is preserved only for `a < 2^63` (C16 `nat_to_int_value`,
+    `nat_to_int_above`); this theorem states the bits, not the value. -/
 theorem nat_conversions (a : W) :
     evalBuiltin table "nat" [N a] = .ok (N a) ∧
     evalBuiltin table "int" [N a] = .ok (I a) ∧            -- no-op: value preserved iff < 2^63 (C16)
